@@ -547,6 +547,16 @@ def contains(eng, container, item, st, line=0):
         if tag == "str":
             it = eng.lift(item, st1)
             yield st1, z3.Contains(V.Val.s(container.t), V.Val.s(it))
+        elif tag == "ref":
+            for st2, pycls in eng.class_of(container, st1):
+                m = eng.lookup_method(pycls, "__contains__")
+                if m is None:
+                    raise Unsupported(f"'in' on object of class {pycls.__name__}")
+                for st3, res in eng.call(BoundMethod(SV(container.t, hint=pycls), m), [item], {}, st2, line):
+                    if isinstance(res, Raise):
+                        yield st3, res
+                    else:
+                        yield from eng.truthy(res, st3)
         else:
             raise Unsupported(f"'in' on symbolic {tag}")
 
@@ -722,20 +732,17 @@ def joined_str(eng, node, st, fr):
                 parts.pop()
                 continue
             xt = eng.lift(x, st1)
-            for st2, tag in _kind_cases(eng, SV(xt), st1):
-                if tag == "str" and v.conversion in (-1, 115):
-                    parts.append(V.Val.s(xt))
-                elif tag == "int":
-                    parts.append(z3.IntToStr(V.Val.i(xt)) if True else None)
-                    st2.assume(V.Val.i(xt) >= 0) if False else None
-                    if not eng.feasible(st2, [V.Val.i(xt) < 0]):
-                        pass
-                    else:
-                        parts[-1] = z3.If(V.Val.i(xt) < 0, z3.Concat(z3.StringVal("-"), z3.IntToStr(-V.Val.i(xt))), z3.IntToStr(V.Val.i(xt)))
-                else:
-                    f = opq("fmt_str", V.Val, z3.StringSort())
-                    parts.append(f(xt))
-                yield from go(i + 1, st2)
-                parts.pop()
+            # no case split on the value's type: str(x) of a str is x itself, of an int its decimal numeral,
+            # of anything else an uninterpreted text (fmt_str) - one term covering all cases
+            fmt = opq("fmt_str", V.Val, z3.StringSort())
+            iv = V.Val.i(xt)
+            numeral = z3.If(iv < 0, z3.Concat(z3.StringVal("-"), z3.IntToStr(-iv)), z3.IntToStr(iv))
+            if v.conversion in (-1, 115):
+                term = z3.If(V.is_str(xt), V.Val.s(xt), z3.If(V.is_int(xt), numeral, fmt(xt)))
+            else:
+                term = opq("fmt_repr", V.Val, z3.StringSort())(xt)
+            parts.append(z3.simplify(term))
+            yield from go(i + 1, st1)
+            parts.pop()
 
     yield from go(0, st)
